@@ -89,7 +89,8 @@ RFlds(f) == [t |-> "flds", v |-> f]          \* flat array field value ..., pair
 REnt(e) == RArr(<<RBulk(IdBytes(e.id)), RFlds(e.f)>>)
 REnts(es) == RArr([i \in 1..Len(es) |-> REnt(es[i])])
 (* XPENDING extended form: rows <<id, consumer, deliveries>>; idle time is any non-negative integer *)
-RPendExt(rows, ordered) == [t |-> "pendext", v |-> rows, ordered |-> ordered]
+RPendExt(rows, ordered) == [t |-> "pendext", v |-> rows, ordered |-> ordered, pick |-> -1]
+RPendPick(rows, n) == [t |-> "pendext", v |-> rows, ordered |-> FALSE, pick |-> n]     \* any n of the rows
 (* XPENDING summary consumer list: pairs <<name, count>> in any order; count as bulk (intOK: or integer) *)
 RPendCons(pairs, intOK) == [t |-> "pendcons", v |-> pairs, intOK |-> intOK]
 
@@ -309,8 +310,11 @@ CmdXGCREATECONSUMER(a, K) ==
         [] st = "dev" -> Out(RInt(0), K2) \cup Dev("xreadgroup_consumer_not_created", RInt(1), K2)
 
 (* a group whose pending-entry accounting the implementation is known to have broken (only reachable through the
-   deviations named in skew): what it reports about pending entries afterwards is not checked *)
+   deviations named in skew): what it reports about pending entries afterwards is not checked.  Such a group has
+   ONE outcome per request (any reply, the reference effect): nothing can tell alternatives apart any more. *)
+IsSkewed(grp) == grp.skew # {}
 Skewed(grp, K) == DevSet(grp.skew, RAny, K)
+OrSkewed(grp, K, outs) == IF IsSkewed(grp) THEN Skewed(grp, K) ELSE outs
 
 (* XGROUP DELCONSUMER key group consumer -> number of pending entries the consumer had *)
 CmdXGDELCONSUMER(a, K) ==
@@ -321,7 +325,7 @@ CmdXGDELCONSUMER(a, K) ==
     IF ~HasG(v, a[4]) THEN Fail(K) \cup Dev("xgroup_missing_noerr", RInt(0), K)
     ELSE LET grp == v.groups[a[4]] mine == OwnedBy(grp.pel, a[5])
              K2 == PutG(K, a[3], a[4], [grp EXCEPT !.pel = DropIds(@, mine), !.cons = DelC(@, a[5])])
-         IN Out(RInt(Cardinality(mine)), K2) \cup Skewed(grp, K2)
+         IN OrSkewed(grp, K2, Out(RInt(Cardinality(mine)), K2))
 
 CmdXGROUP(a, K) ==
   IF Len(a) < 2 THEN Fail(K)
@@ -382,7 +386,7 @@ CmdXREADGROUP(a, K) ==
                      r == IF es = <<>> THEN RNilArr ELSE one(REnts(es))
                      (* known defect: delivering an entry that is already pending (possible after SETID) re-assigns it
                         without updating the previous owner's counter and index *)
-                     steal == IF facked /\ \E i \in 1..Len(fes) : fes[i].id \in DOMAIN grp.pel
+                     steal == IF facked /\ ~IsSkewed(grp) /\ \E i \in 1..Len(fes) : fes[i].id \in DOMAIN grp.pel
                               THEN {"xreadgroup_redelivery_skews_counters"} ELSE {}
                      fg == IF facked THEN [grp EXCEPT !.cons = Seen(grp, c, TRUE), !.ld = fes[Len(fes)].id,
                                                       !.pel = Deliver(@, fes, c), !.skew = @ \cup steal]
@@ -406,9 +410,10 @@ CmdXREADGROUP(a, K) ==
                                             !.skew = IF \E i \in 1..Len(fes) : fes[i].id \in DOMAIN grp.pel
                                                      THEN @ \cup {"xreadgroup_history_redelivers"} ELSE @]
                            ELSE [grp EXCEPT !.cons = Seen(grp, c, FALSE)]
-                 IN Out(r, PutG(K, k, g, g2))
-                    \cup Dev("xreadgroup_history_redelivers", fr, PutG(K, k, g, fg))
-                    \cup Skewed(grp, PutG(K, k, g, g2))
+                 IN IF IsSkewed(grp)
+                    THEN (* the group's position stays checked: it is the reference one or the one the defect leaves *)
+                         Skewed(grp, PutG(K, k, g, g2)) \cup Skewed(grp, PutG(K, k, g, [g2 EXCEPT !.ld = fg.ld]))
+                    ELSE Out(r, PutG(K, k, g, g2)) \cup Dev("xreadgroup_history_redelivers", fr, PutG(K, k, g, fg))
 
 (* XACK key group id [id ...] -> number of entries that were pending (each counted once) *)
 CmdXACK(a, K) ==
@@ -422,7 +427,7 @@ CmdXACK(a, K) ==
     ELSE LET grp == K[a[2]].v.groups[a[3]]
              hit == {IdOf(a[i]) : i \in 4..Len(a)} \cap DOMAIN grp.pel
              K2 == PutG(K, a[2], a[3], [grp EXCEPT !.pel = DropIds(@, hit)])
-         IN Out(RInt(Cardinality(hit)), K2) \cup Skewed(grp, K2)
+         IN OrSkewed(grp, K2, Out(RInt(Cardinality(hit)), K2))
 
 (* XCLAIM key group consumer min-idle-time id [id ...] [JUSTID] *)
 (* A pending entry whose stream entry was deleted: Redis 6.2 still transfers it and reports nil (the id with   *)
@@ -473,9 +478,9 @@ CmdXCLAIM(a, K) ==
                gone(S) == \E x \in S : x \notin EntIds(v)
                fdv(S) == (IF justid /\ S # {} THEN {"xclaim_justid_increments"} ELSE {})
                          \cup (IF gone(S) THEN {"xclaim_deleted_entry"} ELSE {})
-           IN {[r |-> x.r, K |-> x.K, dv |-> {}] : x \in conf}
-              \cup UNION {UNION {DevSet(fdv(S), x.r, x.K) : x \in result(S, "impl")} : S \in choices}
-              \cup UNION {Skewed(grp, x.K) : x \in conf}
+           IN OrSkewed(grp, (CHOOSE x \in result(cand, "62") : TRUE).K,
+                       {[r |-> x.r, K |-> x.K, dv |-> {}] : x \in conf}
+                       \cup UNION {UNION {DevSet(fdv(S), x.r, x.K) : x \in result(S, "impl")} : S \in choices})
 
 (* XPENDING key group [start end count [consumer]] *)
 CmdXPENDING(a, K) ==
@@ -485,7 +490,8 @@ CmdXPENDING(a, K) ==
   ELSE IF Len(a) \in {4, 5} THEN Fail(K)
   ELSE IF Len(a) > 7 \/ (Len(a) > 3 /\ Upper(a[4]) = L_IDLE) THEN Unspec(K)
   ELSE LET grp == K[a[2]].v.groups[a[3]] pel == grp.pel ps == PelSeq(pel) IN
-    IF Len(a) = 3 THEN
+    IF IsSkewed(grp) THEN Skewed(grp, K)
+    ELSE IF Len(a) = 3 THEN
       (IF ps = <<>> THEN Out(RArr(<<RInt(0), RNil, RNil, ROneOf({RNilArr, RArr(<<>>)})>>), K)
        ELSE LET cs == SetToSeq({pel[x].c : x \in DOMAIN pel})
                 pairs == [i \in 1..Len(cs) |-> <<cs[i], CountBytes(Cardinality(OwnedBy(pel, cs[i])))>>]
@@ -493,7 +499,6 @@ CmdXPENDING(a, K) ==
             IN Out(sum(FALSE), K)
                \cup (* known defect: per-consumer counts are sent as integers, not as bulk strings *)
                     Dev("xpending_count_not_bulk", sum(TRUE), K))
-      \cup Skewed(grp, K)
     ELSE LET ks == {BoundKindX(a[4]), BoundKindX(a[5])} IN
       IF "bad" \in ks THEN Fail(K)
       ELSE IF ks # {"ok"} THEN Unspec(K)
@@ -507,9 +512,9 @@ CmdXPENDING(a, K) ==
               \cup (* known defect: with a consumer argument the id range is ignored and the order is that of delivery *)
                    (IF Len(a) = 7 /\ n > 0 /\ (sel # mine \/ Len(mine) > 1)
                     THEN Dev("xpending_consumer_ignores_range",
-                             IF n >= Len(mine) THEN RPendExt([i \in 1..Len(mine) |-> row(mine[i])], FALSE) ELSE RAny, K)
+                             IF n >= Len(mine) THEN RPendExt([i \in 1..Len(mine) |-> row(mine[i])], FALSE)
+                             ELSE RPendPick([i \in 1..Len(mine) |-> row(mine[i])], n), K)
                     ELSE {})
-              \cup Skewed(grp, K)
 
 -----------------------------------------------------------------------------
 StreamCommands == {"XADD", "XLEN", "XRANGE", "XREVRANGE", "XREAD", "XDEL", "XTRIM",
